@@ -23,9 +23,18 @@ class C01(BaseMonitor):
         self.initial_totals = totals(self.sim.world.system)
         self.check_reference(-1, {"op": "initial"})
         self.prev_snapshot = None
+        self.snap_two_back = None
+        self.history = []
 
     def next_op(self, i):
-        return opgen.gen_edit(self.k.rng("op", i), self.sim.spec, self.cfg, i)
+        r = self.k.rng("op", i)
+        hist = [h for h in getattr(self, "history", []) if h["obj"] in self.sim.spec["objs"]]
+        if hist and r.random() < 0.1:
+            # undo: re-assign the value an input (or link, or list) had before one of the last accepted edits
+            h = hist[-1] if r.random() < 0.6 else r.choice(hist)
+            return {"op": "set", "obj": h["obj"], "attr": h["attr"], "value": copy.deepcopy(h["value"]), "src": h["src"],
+                    "undo_of": h["i"], "i": i}
+        return opgen.gen_edit(r, self.sim.spec, self.cfg, i)
 
     def step(self, i, op):
         sim = self.sim
@@ -33,7 +42,32 @@ class C01(BaseMonitor):
         in_closure_before = set(S.closure(sim.spec))
         spec_before = copy.deepcopy(sim.spec["objs"])
         before = totals(system) if op["op"] in ("set", "list", "group") else None
+        snap_before = C.calc_snapshot(sim.world, [n for n in in_closure_before if n in sim.world.objs])
+        touched_before = {}
+        if before is not None:
+            for ch in (op["changes"] if op["op"] == "group" else [op]):
+                if ch["obj"] in sim.world.objs:
+                    touched_before[(ch["obj"], ch["attr"])] = sim.world.objs[ch["obj"]].__dict__.get(ch["attr"])
+        self.touched_before = touched_before
+        prev_value = None
+        if op["op"] == "set" and op["obj"] in sim.spec["objs"]:
+            prev_value = {"obj": op["obj"], "attr": op["attr"], "i": i,
+                          "value": copy.deepcopy(sim.spec["objs"][op["obj"]]["attrs"].get(op["attr"])),
+                          "src": sim.spec["objs"][op["obj"]].get("src", {}).get(op["attr"])}
         status, ret = self.execute(op)
+        if status == "ok" and prev_value is not None and prev_value["value"] is not None:
+            if not hasattr(self, "history"):
+                self.history = []
+            self.history.append(prev_value)
+            self.history = self.history[-6:]
+        if status == "ok" and op.get("undo_of") is not None and op["undo_of"] == i - 1 and self.snap_two_back is not None:
+            # "undoing an edit restores the previous footprints": compare with the snapshot taken before that edit
+            now = C.calc_snapshot(sim.world, [n for n in S.closure(sim.spec)])
+            d = C.diff_snapshots(self.snap_two_back, now, self.cls_of)
+            self.res.count("undo_checked")
+            if d:
+                raise Violation("C01", "undo_does_not_restore", self.where_of(d), self.fmt(d), i, op_kind(op))
+        self.snap_two_back = snap_before
         if status == "skip":
             return "skip"
         if status == "hang":
@@ -83,7 +117,10 @@ class C01(BaseMonitor):
         if before is None:
             return
         touched = [ch["obj"] for ch in (op["changes"] if op["op"] == "group" else [op])]
-        effective = any(spec_before.get(n) != sim.spec["objs"].get(n) for n in touched)
+        # effective = the library really replaced a value (an equal-value assignment is skipped as a no-op, whatever
+        # the unit it is expressed in, and then leaves its before/after reference untouched)
+        effective = any(n in sim.world.objs and sim.world.objs[n].__dict__.get(a) is not old
+                        for (n, a), old in self.touched_before.items())
         if not effective or not any(n in in_closure_before for n in touched):
             return
         prev = {"energy": C.norm(system.previous_total_energy_footprints_sum_over_period),
@@ -982,10 +1019,14 @@ class C18(FaultMonitorMixin, BaseMonitor):
             self.tail = True
         x = r.random()
         if self.tail and x < 0.65:
-            mode = r.choice(["random", "random", "canonical", "reverse", "repeat", "system", "single"])
+            mode = r.choice(["random", "random", "canonical", "reverse", "repeat", "system", "single", "rules", "rules"])
             objs = [n for n in inside if n != "sys"]
             if mode == "system" or not objs:
                 targets = ["sys!"] * r.choice([1, 2])
+            elif mode == "rules":
+                # single update rules, in any order: "every update rule only reads values that are already up to date"
+                pairs = [f"{n}.{a}" for n in objs for a in self.sim.world.objs[n].calculated_attributes]
+                targets = [r.choice(pairs) for _ in range(r.randint(3, 12))] if pairs else ["sys!"]
             elif mode == "single":
                 targets = [r.choice(objs)]
             else:
@@ -1063,6 +1104,8 @@ class C18(FaultMonitorMixin, BaseMonitor):
                 continue
             if status == "hang":
                 raise Violation("C18", "hang", {ret.site}, f"recomputing {t} does not return in {ret.site}", i, op_kind(op))
+            if "." in t:
+                self.res.count("fault:single_rule_request")
             if status == "raised":
                 self.res.count(f"recompute_raised:{type(ret).__name__}")
             self.compare(i, op, calc0, in0, f"recompute request #{n_} ({t})")
